@@ -10,6 +10,7 @@ R13.3  closed descriptors are inert: every descriptor-taking entry point (both A
        call and no string/free operation on a descriptor field and returns EBADF on every path
 R13.6  call sequences: every insert/close sequence of up to 4 (thorough 5) steps on a concrete table keeps each descriptor number
        unambiguous (fresh on insertion, unchanged while live, not found after close)
+R13.7  who may release: close/closedir/free of a descriptor's native descriptor, stream or path happen only in the table's close operation
 R13.4  single access path: only the table helpers touch wasi.fds
 R13.5  prestat: both calls report the stored path of a slot whose path is non-NULL and EBADF otherwise
 """
@@ -157,6 +158,62 @@ def check_insertion(chk, tu):
         chk.expect(got == want and all(d['path'] == 0 for d in t[:3]), 'R13.1', 'stdio-first',
                    'after wasiInit descriptors 0-2 hold native descriptors %r (paths %r), expected the standard streams %r'
                    % (got, [d['path'] for d in t[:3]], want), 'wasiInit')
+
+
+def check_who_releases(chk, tu):
+    """R13.7: the resources of a live descriptor (native descriptor, directory stream, path string) are released by the table's close
+    operation only - the one function for which R13.2 shows that the slot is left in the closed state on every exit.  Any other
+    function that hands a descriptor field to close/closedir/free leaves (on some exit) a live table entry that still holds the
+    released resource: later calls on that number use or release it again.  A helper that is called only from the close operation
+    counts as part of it"""
+    callers = {}
+    releases = {}
+    for name, f in tu.functions.items():
+        body = astdb.fn_body(f)
+        if body is None or not (astdb.file_of(f) or '').endswith('wasi.c'):
+            continue
+        for c in walk(body):
+            if c.get('kind') != 'CallExpr':
+                continue
+            cn = astdb.callee_name(c)
+            if cn:
+                callers.setdefault(cn, set()).add(name)
+            if cn in ('close', 'closedir', 'free', 'fclose') and astdb.call_args(c):
+                arg = astdb.call_args(c)[0]
+                fld = [x for x in walk(arg) if x.get('kind') == 'MemberExpr' and x.get('name') in ('fd', 'dir', 'path') and
+                       'WasiFileDescriptor' in tu.desugar(astdb.qtype(kids(x)[0])).replace('WasiFileDescriptors', '')]
+                if fld:
+                    releases.setdefault(name, []).append((cn, astdb.expr_text(arg), astdb.loc_str(c)))
+    chk.require('wasiFileDescriptorClose' in releases, 'anchor: wasiFileDescriptorClose releases no descriptor resource')
+
+    def only_from_close(fn, seen=()):
+        if fn == 'wasiFileDescriptorClose':
+            return True
+        cs = callers.get(fn, set())
+        return bool(cs) and fn not in seen and all(only_from_close(c_, seen + (fn,)) for c_ in cs)
+    for fn, rel in sorted(releases.items()):
+        if not only_from_close(fn) and any(astdb.callee_name(c) == 'readdir' for c in walk(astdb.fn_body(tu.functions[fn]))) and \
+                all(r[0] == 'closedir' for r in rel):
+            # the directory-listing import handles the stream itself: decided on its path summaries (open stream, start cookie and
+            # continuation cookie) - on every exit, success or error, a stream that was handed to closedir is no longer in the table
+            from .c14 import readdir_paths
+            DIRTOK = unk('open-dir-stream')
+            bad = None
+            for cookie in (0, unk('cookie', 'unsigned long long')):
+                for p in readdir_paths(tu, DIRTOK, cookie):
+                    if p.aborted:
+                        continue
+                    closed = [a for n_, a, l in p.events if n_ == 'extern:closedir' and a and a[0] == DIRTOK]
+                    if closed and p.state['table'][3]['dir'] == DIRTOK and bad is None:
+                        bad = 'on the path %s (result %r) the stream is handed to closedir but stays in the table' % (p.cond_text()[:160], p.ret)
+            chk.expect(bad is None, 'R13.7', '%s:released-stream-leaves-table' % fn,
+                       '%s releases the directory stream of a live descriptor: %s - the next fd_readdir or fd_close on that number uses / releases '
+                       'it again' % (fn, bad), '%s:release' % fn, rel[0][2])
+            continue
+        chk.expect(only_from_close(fn), 'R13.7', '%s:releases-descriptor-resources' % fn,
+                   '%s releases a resource of a descriptor (%s) although it is not the table\'s close operation: on an exit that does not also '
+                   'close the slot the live table entry keeps the released resource - a later call on that descriptor number uses or releases it '
+                   'again (use after free / double close)' % (fn, ', '.join('%s(%s) at %s' % r for r in rel)), '%s:release' % fn, rel[0][2])
 
 
 def check_descriptor_sequences(chk, tu):
@@ -458,6 +515,8 @@ def run(chk):
     chk.unit(tu)
     check_append_only(chk, tu)
     check_insertion(chk, tu)
+    check_who_releases(chk, tu)
+    chk.floor('R13.7', 1)
     check_descriptor_sequences(chk, tu)
     chk.floor('R13.6', 1)
     closed = closed_state(chk, tu)
